@@ -142,6 +142,36 @@ def run(ctx):
             okr = seeds_ok
             if not seeds_ok:
                 why_seed = "the running minimum is re-seeded with the current cell on a condition other than `row == 0`, so an earlier smaller row can be forgotten"
+    if not okr and ret[0] == "op" and ret[1] == "Add" and len(ret[2]) == 2:
+        # the running minimum kept in an Option: None before the first row, Some(min so far) afterwards
+        #   lowest = match lowest { None => Some(cell), Some(m) => Some(m.min(cell)) };  ..  lowest.unwrap_or_else(zero) + n
+        from ..guards import atomic_facts
+        accs = [x for x in ret[2] if x[0] == "call" and x[1].rsplit("::", 1)[-1] in ("unwrap_or_else", "unwrap_or", "unwrap", "unwrap_or_default", "expect") and x[2] and x[2][0][0] == "loopvar"]
+        other = [x for x in ret[2] if x not in accs]
+        if len(accs) == 1 and other == [("param", 3, add_n.local_name(3))]:
+            opt = accs[0][2][0]
+            cellt = ("index", ("field", selfp, "table"), want)
+            payload = ("field", ("variant", opt, "Some"), "0")
+            some = lambda v_: ("adt", "std::option::Option", "Some", (("0", v_),))
+            seed, fold = some(cellt), some(mk("min", cellt, payload))
+            init, upd = tb.loop_init(opt[1], opt[2]), tb.loop_update(opt[1], opt[2])
+            alts = set(map(repr, upd[1])) if upd[0] == "phi" else {repr(upd)}
+            shape = init[0] == "adt" and init[2] == "None" and alts == {repr(seed), repr(fold)}
+            sel_ok = shape
+            if shape:
+                is_none = mk("Eq", ("call", "discriminant", (opt,)), const(0))
+                for bi_, blk_ in enumerate(add_n.blocks):
+                    for si_, st_ in enumerate(blk_.stmts):
+                        if st_.k == "assign" and st_.rv.k == "aggregate" and st_.rv.j.get("variant") == "Some" and bi_ in add_n.natural_loop(opt[2]):
+                            v_ = tb.rvalue(st_.rv, bi_, si_)
+                            fs_ = {repr(c_): tr_ for c_, tr_ in atomic_facts(add_n, prog, bi_, tb)}
+                            if v_ == seed and fv(fs_, is_none) is not True:
+                                sel_ok = False
+                            if v_ == fold and fv(fs_, is_none) is not False and fv(fs_, mk("Eq", ("call", "discriminant", (opt,)), const(1))) is not True:
+                                sel_ok = False
+            okr = shape and sel_ok
+            if shape and not sel_ok:
+                why_seed = "the Option-kept minimum is re-seeded with the current cell although a minimum is already held"
     ctx.check(okr, "R02-return-min", add_n.key, add_n, "add_n returns checked(min over the rows of the old cells + n); the fold is seeded by the first row only",
               (why_seed + "; " if why_seed else "") + "add_n's return value is %s with fold %s" % (fmt(ret), fmt(tb.loop_update(lv[0][1], lv[0][2])) if lv else "?"))
 
